@@ -24,18 +24,20 @@ EXPLANATION = ("Bounded symbolic execution (CrossHair/z3) of the fabric life-cyc
                "A second family checks that a started active object woken after fabric.stop() clears its own flag and dispatches nothing.")
 RULE = "one case per (pre-state, operation sequence); non-trivial = the sequence contains at least one start or stop"
 LIM = {"quick": dict(K=3), "thorough": dict(K=4)}
-OPS = ["start", "stop", "clear", "subscribe", "publish"]
+OPS = ["start", "stop", "clear", "subscribe", "publish", None, "the lifo delivery thread dies"]
 PRE = ["never-started", "running", "stopped"]
 
 
 def bounds(tier):
-  d = dict(LIM[tier]); d["meaning"] = "K = operations after the pre-state; ops=%s (5 = none); pre-states=%s" % (OPS, PRE)
+  d = dict(LIM[tier]); d["meaning"] = "K = operations after the pre-state; ops=%s (5 = none); pre-states=%s; jpos 1 = stop() finds the delivery threads at their loop test instead of waiting in get()" % (OPS, PRE)
   return d
 
 
 def pre(v, lim):
   ops = [v["o1"], v["o2"], v["o3"], v["o4"]]
   K = lim["K"]
+  if sum(1 for o in ops if o == 6) > 1:
+    return False
   for i, o in enumerate(ops):
     if i >= K and o != 5:
       return False
@@ -56,6 +58,8 @@ def observe(af, what, running_model):
   both = len(fabric.fabric_threads("fifo")) == 1 and len(fabric.fabric_threads("lifo")) == 1
   if bool(af.is_alive()) != both:
     return FAIL("is_alive-wrong", "%s: is_alive() %s but alive threads fifo=%d lifo=%d" % (what, af.is_alive(), len(fabric.fabric_threads("fifo")), len(fabric.fabric_threads("lifo"))))
+  if running_model == "half":
+    return None
   if not running_model and fabric.fabric_threads():
     return FAIL("thread-alive-after-stop", "%s: %d threads alive" % (what, len(fabric.fabric_threads())))
   if running_model and not both:
@@ -63,14 +67,15 @@ def observe(af, what, running_model):
   return None
 
 
-def case(pre_state, o1, o2, o3, o4):
+def case(pre_state, o1, o2, o3, o4, jpos=0):
   hsm, ao = fabric.install()
+  fabric.FabricThread.at_loop_test = bool(jpos)
   from collections import deque
   from miros.event import Event
   af = ao.ActiveFabricSource()
   running = False
   clean = True          # no clear() since the fabric last went from stopped to running
-  what = "pre=%s ops=%s" % (PRE[pre_state], [OPS[o] for o in (o1, o2, o3, o4) if o != 5])
+  what = "pre=%s ops=%s%s" % (PRE[pre_state], [OPS[o] for o in (o1, o2, o3, o4) if o != 5], " (stop finds the delivery threads at their loop test)" if jpos else "")
   n = [0]
 
   def probe():
@@ -95,22 +100,30 @@ def case(pre_state, o1, o2, o3, o4):
       if o == 5:
         continue
       if o == 0:
-        if not running:
+        if running is False:
           clean = True
         af.start(); running = True
       elif o == 1:
         af.stop(); running = False
+        if fabric.fabric_threads():
+          return FAIL("thread-alive-after-stop", "%s: %d threads alive after stop" % (what, len(fabric.fabric_threads())))
       elif o == 2:
         af.clear(); clean = False
       elif o == 3:
         af.subscribe(deque(maxlen=5), Event(signal="S"))
+      elif o == 6:
+        # a delivery thread ends by itself (a subscriber object without append() raised inside it)
+        alive = fabric.fabric_threads("lifo")
+        if alive:
+          alive[0].ended = True
+          running = "half"
       else:
         af.publish(Event(signal="S"))
         fabric.pump_fabric()
       f = observe(af, what + " after " + OPS[o], running)
       if f:
         return f
-    if running and clean:
+    if running is True and clean:
       got, total = probe()
       if got != 1 or total != 1:
         return FAIL("no-delivery-after-start", "%s: probe publication delivered %d times" % (what, got))
@@ -120,10 +133,10 @@ def case(pre_state, o1, o2, o3, o4):
     return FAIL("assertion-in-fabric", "%s: %r" % (what, ex))
   except Exception as ex:
     return FAIL("raised:" + type(ex).__name__, "%s: %r" % (what, ex))
-  return PASS(nontrivial=any(o in (0, 1) for o in (o1, o2, o3, o4)))
+  return PASS(nontrivial=any(o in (0, 1, 6) for o in (o1, o2, o3, o4)))
 
 
-Family(globals(), "h_lifecycle", params=[("pre_state", 0, 2), ("o1", 0, 5), ("o2", 0, 5), ("o3", 0, 5), ("o4", 0, 5)],
+Family(globals(), "h_lifecycle", params=[("pre_state", 0, 2), ("o1", 0, 6), ("o2", 0, 6), ("o3", 0, 6), ("o4", 0, 6), ("jpos", 0, 1)],
        pre=pre, case=case, split=["pre_state"], tiers=LIM)
 
 
